@@ -1279,7 +1279,6 @@ Proof.
     rewrite E, read_blob_frame_parts by (try rewrite mutate_length; assumption).
     right; left. exact G0. }
   apply Nat.ltb_ge in C3.
-  (* the remaining four cases continue in [blob_frame_guarded_tail] style below *)
   assert (EF2 : F = (m ++ k ++ s) ++ kl ++ rv ++ od ++ body) by (rewrite EF; now rewrite <- !app_assoc).
   assert (L3 : length (m ++ k ++ s) = 28%nat) by (rewrite !app_length; lia).
   destruct (Nat.ltb i 30) eqn:C4.
@@ -1629,8 +1628,6 @@ Lemma table_region_layout secs r :
   region_layout secs (table_file_bytes h128 secs) r.
 Proof.
   unfold regions_of_table_file. cbv zeta. intros Hin. apply in_app_or in Hin.
-  assert (Ef : forall x, table_file_bytes h128 secs = plain_body secs ++ x ->
-                         True) by trivial.
   set (tail := sfa_toc (tsections_plain h128 secs)
                ++ sfa_trailer (h128 (sfa_toc (tsections_plain h128 secs)))
                     (N.of_nat (length (plain_body secs)))
@@ -2121,3 +2118,345 @@ Proof.
   destruct i as [|[|i]]; cbn in E0, E1; try discriminate.
   destruct i as [|[|i]]; cbn in E0, E1; discriminate.
 Qed.
+
+(** ** Theorem 4c. Every byte of a blob frame, as far as the SCANNER is concerned.
+    After any single-byte mutation inside the frame, the scan step fails, or returns an
+    entry with the SAME key, value and rest of input -- whose [seqno] can differ only if
+    the mutation hit bytes 20..27 and whose [uncompressed_len] only if it hit bytes
+    30..33 -- or some other byte string collides with [key ++ value] under [h128]. *)
+Theorem blob_scan_guarded key seqno value rest i b :
+  N.of_nat (length key) < 2 ^ 16 -> N.of_nat (length value) < 2 ^ 32 -> seqno < 2 ^ 64 ->
+  let ul := trunc 32 (N.of_nat (length value)) in
+  let F := encode_blob_frame h128 key seqno value ul in
+  (i < length F)%nat ->
+  let r' := scan_blob_frame h128 (mutate (F ++ rest) i b) in
+  scan_blob_frame h128 (F ++ rest) = BOk (Some (mkScan key seqno value ul, rest)) /\
+  ((exists e, r' = BErr e)
+   \/ (exists sq ul', r' = BOk (Some (mkScan key sq value ul', rest))
+                      /\ ((i < 20 \/ 28 <= i)%nat -> sq = seqno)
+                      /\ ((i < 30 \/ 34 <= i)%nat -> ul' = ul))
+   \/ (exists x, x <> key ++ value /\ h128 x = h128 (key ++ value))).
+Proof.
+  intros Hk Hv Hs ul F Hi r'.
+  set (m := BLOB_HEADER_MAGIC). set (k := write_u128_le (h128 (key ++ value))).
+  set (s := write_u64_le seqno). set (kl := write_u16_le (trunc 16 (N.of_nat (length key)))).
+  set (rv := write_u32_le ul). set (od := write_u32_le (trunc 32 (N.of_nat (length value)))).
+  set (body := key ++ value).
+  assert (EF : F ++ rest = m ++ k ++ s ++ kl ++ rv ++ od ++ body ++ rest).
+  { unfold F, encode_blob_frame. fold m k s kl rv od body. now rewrite <- !app_assoc. }
+  assert (Lm : length m = 4%nat) by reflexivity.
+  assert (Lk : length k = 16%nat) by apply le_bytes_length.
+  assert (Ls : length s = 8%nat) by apply le_bytes_length.
+  assert (Lkl : length kl = 2%nat) by apply le_bytes_length.
+  assert (Lrv : length rv = 4%nat) by apply le_bytes_length.
+  assert (Lod : length od = 4%nat) by apply le_bytes_length.
+  assert (Lb : length body = (length key + length value)%nat) by apply app_length.
+  assert (LF : length F = (38 + length body)%nat).
+  { unfold F, encode_blob_frame. fold m k s kl rv od body. rewrite !app_length. lia. }
+  assert (Vk : le_value k = h128 (key ++ value)).
+  { unfold k, write_u128_le. apply le_lossless_iff. apply h128_range. }
+  assert (Vs : le_value s = seqno).
+  { unfold s, write_u64_le. apply le_lossless_iff. exact Hs. }
+  assert (Vkl : N.to_nat (le_value kl) = length key).
+  { unfold kl, write_u16_le. rewrite le_value_le_bytes.
+    change (2 ^ (8 * N.of_nat 2)) with (2 ^ 16). unfold trunc. rewrite N.mod_mod by apply pow2_nz.
+    rewrite N.mod_small by exact Hk. apply Nat2N.id. }
+  assert (Vrv : le_value rv = ul).
+  { unfold rv, write_u32_le. rewrite le_value_le_bytes.
+    change (2 ^ (8 * N.of_nat 4)) with (2 ^ 32). apply trunc_idem. }
+  assert (Vod : N.to_nat (le_value od) = length value).
+  { unfold od, write_u32_le. rewrite le_value_le_bytes.
+    change (2 ^ (8 * N.of_nat 4)) with (2 ^ 32). unfold trunc. rewrite N.mod_mod by apply pow2_nz.
+    rewrite N.mod_small by exact Hv. apply Nat2N.id. }
+  (* with intact magic, both lengths and key/value bytes *)
+  assert (G : forall k' s' rv',
+    length k' = 16%nat -> length s' = 8%nat -> length rv' = 4%nat ->
+    scan_blob_frame h128 (m ++ k' ++ s' ++ kl ++ rv' ++ od ++ body ++ rest) =
+    if h128 (key ++ value) =? le_value k'
+    then BOk (Some (mkScan key (le_value s') value (le_value rv'), rest))
+    else BErr XChecksumMismatch).
+  { intros k' s' rv' Lk' Ls' Lrv'. rewrite scan_blob_frame_parts by assumption.
+    change (list_N_eqb m META_HEADER_MAGIC) with false.
+    change (negb (list_N_eqb m BLOB_HEADER_MAGIC)) with false. cbv iota.
+    rewrite Vkl. unfold body. rewrite <- app_assoc, take_bytes_app.
+    rewrite Vod, take_bytes_app. reflexivity. }
+  assert (R0 : scan_blob_frame h128 (F ++ rest) = BOk (Some (mkScan key seqno value ul, rest))).
+  { rewrite EF, G by assumption. rewrite Vk, N.eqb_refl, Vs, Vrv. reflexivity. }
+  split; [exact R0|].
+  assert (Same : forall r, r = BOk (Some (mkScan key seqno value ul, rest)) ->
+    exists sq ul', r = BOk (Some (mkScan key sq value ul', rest))
+                   /\ ((i < 20 \/ 28 <= i)%nat -> sq = seqno)
+                   /\ ((i < 30 \/ 34 <= i)%nat -> ul' = ul)).
+  { intros r ->. exists seqno, ul. repeat split; reflexivity. }
+  unfold r'. rewrite EF.
+  destruct (Nat.ltb i 4) eqn:C1.
+  { apply Nat.ltb_lt in C1. rewrite mutate_app_l by lia.
+    destruct (list_N_dec (mutate m i b) m) as [Em|NEm].
+    - rewrite Em, <- EF. right; left. apply Same. exact R0.
+    - left. rewrite scan_blob_frame_parts by (try rewrite mutate_length; assumption).
+      unfold m at 1. rewrite blob_magic_not_meta.
+      assert (Ef : list_N_eqb (mutate m i b) BLOB_HEADER_MAGIC = false).
+      { destruct (list_N_eqb (mutate m i b) BLOB_HEADER_MAGIC) eqn:E; [|reflexivity].
+        apply list_N_eqb_iff in E. contradiction. }
+      rewrite Ef. eexists. reflexivity. }
+  apply Nat.ltb_ge in C1. destruct (Nat.ltb i 20) eqn:C2.
+  { apply Nat.ltb_lt in C2. rewrite mutate_app_r by lia. rewrite Lm, mutate_app_l by lia.
+    rewrite G by (try rewrite mutate_length; assumption).
+    destruct (h128 (key ++ value) =? le_value (mutate k (i - 4) b)).
+    - right; left. apply Same. now rewrite Vs, Vrv.
+    - left. eexists. reflexivity. }
+  apply Nat.ltb_ge in C2.
+  assert (E2 : m ++ k ++ s ++ kl ++ rv ++ od ++ body ++ rest
+               = (m ++ k) ++ s ++ kl ++ rv ++ od ++ body ++ rest) by (now rewrite <- !app_assoc).
+  assert (L2 : length (m ++ k) = 20%nat) by (rewrite app_length; lia).
+  destruct (Nat.ltb i 28) eqn:C3.
+  { (* seqno: returned as found *)
+    apply Nat.ltb_lt in C3. rewrite E2, mutate_app_r by lia. rewrite L2, mutate_app_l by lia.
+    rewrite <- app_assoc. rewrite G by (try rewrite mutate_length; assumption).
+    rewrite Vk, N.eqb_refl. right; left.
+    exists (le_value (mutate s (i - 20) b)), ul. rewrite Vrv.
+    split; [reflexivity|]. split; [lia|reflexivity]. }
+  apply Nat.ltb_ge in C3.
+  assert (E3 : m ++ k ++ s ++ kl ++ rv ++ od ++ body ++ rest
+               = (m ++ k ++ s) ++ kl ++ rv ++ od ++ body ++ rest) by (now rewrite <- !app_assoc).
+  assert (L3 : length (m ++ k ++ s) = 28%nat) by (rewrite !app_length; lia).
+  destruct (Nat.ltb i 30) eqn:C4.
+  { (* key length *)
+    apply Nat.ltb_lt in C4. rewrite E3, mutate_app_r by lia. rewrite L3, mutate_app_l by lia.
+    rewrite <- !app_assoc.
+    rewrite scan_blob_frame_parts by (try rewrite mutate_length; assumption).
+    change (list_N_eqb m META_HEADER_MAGIC) with false.
+    change (negb (list_N_eqb m BLOB_HEADER_MAGIC)) with false. cbv iota.
+    set (n' := N.to_nat (le_value (mutate kl (i - 28) b))).
+    destruct (take_bytes_none_or n' (body ++ rest)) as [En|(fk & r7 & En & Eb & Lfk)]; rewrite En.
+    - left. eexists. reflexivity.
+    - rewrite Vod.
+      destruct (take_bytes_none_or (length value) r7) as [En2|(v & r8 & En2 & Eb2 & Lv)]; rewrite En2.
+      + left. eexists. reflexivity.
+      + rewrite Vk. destruct (h128 (fk ++ v) =? h128 (key ++ value)) eqn:Eh;
+          [|left; eexists; reflexivity].
+        apply N.eqb_eq in Eh. destruct (list_N_dec (fk ++ v) (key ++ value)) as [Ex|NEx].
+        * (* same hashed bytes: then the same split, since |v| = |value| *)
+          assert (Lfk' : length fk = length key).
+          { apply (f_equal (@length N)) in Ex. rewrite !app_length in Ex. lia. }
+          apply app_eq_len in Ex; [|exact Lfk']. destruct Ex as [-> ->].
+          assert (r8 = rest).
+          { subst r7. unfold body in Eb. rewrite <- !app_assoc in Eb.
+            apply app_inv_head in Eb. apply app_inv_head in Eb. now symmetry. }
+          subst r8. right; left. apply Same. now rewrite Vs, Vrv.
+        * right; right. exists (fk ++ v). split; assumption. }
+  apply Nat.ltb_ge in C4. destruct (Nat.ltb i 34) eqn:C5.
+  { (* real value length: returned as found *)
+    apply Nat.ltb_lt in C5. rewrite E3, mutate_app_r by lia. rewrite L3.
+    rewrite mutate_app_r by lia. rewrite Lkl, mutate_app_l by lia. rewrite <- !app_assoc.
+    rewrite G by (try rewrite mutate_length; assumption).
+    rewrite Vk, N.eqb_refl. right; left.
+    exists seqno, (le_value (mutate rv (i - 28 - 2) b)). rewrite Vs.
+    split; [reflexivity|]. split; [reflexivity|lia]. }
+  apply Nat.ltb_ge in C5. destruct (Nat.ltb i 38) eqn:C6.
+  { (* on-disk value length: delimits the value that is hashed *)
+    apply Nat.ltb_lt in C6. rewrite E3, mutate_app_r by lia. rewrite L3.
+    rewrite mutate_app_r by lia. rewrite Lkl. rewrite mutate_app_r by lia. rewrite Lrv.
+    rewrite mutate_app_l by lia. rewrite <- !app_assoc.
+    rewrite scan_blob_frame_parts by (try rewrite mutate_length; assumption).
+    change (list_N_eqb m META_HEADER_MAGIC) with false.
+    change (negb (list_N_eqb m BLOB_HEADER_MAGIC)) with false. cbv iota.
+    rewrite Vkl. unfold body. rewrite <- app_assoc, take_bytes_app.
+    set (n' := N.to_nat (le_value (mutate od (i - 28 - 2 - 4) b))).
+    destruct (take_bytes_none_or n' (value ++ rest)) as [En|(v & r8 & En & Eb & Lv)]; rewrite En.
+    - left. eexists. reflexivity.
+    - rewrite Vk. destruct (h128 (key ++ v) =? h128 (key ++ value)) eqn:Eh;
+        [|left; eexists; reflexivity].
+      apply N.eqb_eq in Eh. destruct (list_N_dec (key ++ v) (key ++ value)) as [Ex|NEx].
+      + apply app_inv_head in Ex. subst v. apply app_inv_head in Eb. subst r8.
+        right; left. apply Same. now rewrite Vs, Vrv.
+      + right; right. exists (key ++ v). split; assumption. }
+  apply Nat.ltb_ge in C6.
+  (* key and value bytes *)
+  rewrite E3, mutate_app_r by lia. rewrite L3.
+  rewrite mutate_app_r by lia. rewrite Lkl. rewrite mutate_app_r by lia. rewrite Lrv.
+  rewrite mutate_app_r by lia. rewrite Lod. rewrite mutate_app_l by (rewrite LF in Hi; lia).
+  set (body' := mutate body (i - 28 - 2 - 4 - 4) b).
+  assert (Lb' : length body' = (length key + length value)%nat).
+  { unfold body'. rewrite mutate_length. exact Lb. }
+  rewrite <- !app_assoc.
+  rewrite scan_blob_frame_parts by assumption.
+  change (list_N_eqb m META_HEADER_MAGIC) with false.
+  change (negb (list_N_eqb m BLOB_HEADER_MAGIC)) with false. cbv iota.
+  rewrite Vkl, Vod.
+  assert (Eb' : body' ++ rest = firstn (length key) body'
+                                ++ firstn (length value) (skipn (length key) body') ++ rest).
+  { rewrite (firstn_all2 (skipn (length key) body')) by (rewrite skipn_length; lia).
+    now rewrite app_assoc, firstn_skipn. }
+  rewrite Eb'.
+  rewrite take_bytes_app_w by (rewrite firstn_length; lia).
+  rewrite take_bytes_app_w by (rewrite firstn_length, skipn_length; lia).
+  rewrite (firstn_all2 (skipn (length key) body')) by (rewrite skipn_length; lia).
+  rewrite firstn_skipn, Vk.
+  destruct (h128 body' =? h128 (key ++ value)) eqn:Eh; [|left; eexists; reflexivity].
+  apply N.eqb_eq in Eh. destruct (list_N_dec body' body) as [Ex|NEx].
+  - right; left. apply Same. rewrite Ex. unfold body.
+    rewrite firstn_app_exact by reflexivity. rewrite skipn_app_exact by reflexivity.
+    now rewrite Vs, Vrv.
+  - right; right. exists body'. split; assumption.
+Qed.
+
+End BlobFields.
+
+(** * I. Opening a table ([Table::recover]): every byte of the file *)
+
+Section OpenTable.
+Variable h128 : list N -> N.
+Hypothesis h128_range : forall l, h128 l < 2 ^ 128.
+
+(** any hash collision of the three kinds that protect a table file's metadata *)
+Definition some_collision : Prop :=
+  (exists c c' : list N, c' <> c /\ h128 c' = h128 c)
+  \/ (exists hb hb' : list N, hb' <> hb /\ length hb = 29%nat /\ length hb' = 29%nat
+                              /\ trunc 32 (h128 hb') = trunc 32 (h128 hb)).
+
+(** [file] is an sfa archive whose "meta" handle points at an encoded block: after ANY
+    single-byte mutation ANYWHERE in the file, [Table::recover]'s first steps (trailer,
+    ToC, regions, meta block) fail, or produce the same regions and the same meta block,
+    or there is a collision. (Mutations in data/index/filter blocks and raw regions
+    are "the same" here: they are not read at open time.) *)
+Theorem open_table_guarded body toc tl entries rg pre h payload post pos b :
+  N.of_nat (length body) < 2 ^ 64 ->
+  let file := sfa_file h128 body toc tl in
+  sfa_read_toc file (N.of_nat (length body)) = Ok (entries, toc) ->
+  parse_regions entries = BOk rg ->
+  file = pre ++ block_bytes h128 h payload ++ post ->
+  N.to_nat (fst (tr_meta rg)) = length pre ->
+  N.to_nat (snd (tr_meta rg)) = (33 + length payload)%nat ->
+  h_checksum h = h128 payload -> h_data_length h < 2 ^ 32 -> h_uncompressed_length h < 2 ^ 32 ->
+  let r' := open_table h128 (mutate file pos b) in
+  (exists e, r' = BErr e) \/ r' = open_table h128 file \/ some_collision.
+Proof.
+  intros Hb file Htoc Hrg Ef Hoff Hsz Hck Hdl Hul r'.
+  destruct (sfa_guarded h128 h128_range body toc tl entries pos b Hb Htoc) as [O [H|[H|H]]].
+  - left. destruct H as [e H]. exists e. fold file in H. unfold r', open_table. now rewrite H.
+  - fold file in H, O. unfold r', open_table. rewrite H, O, Hrg, Hoff, Hsz.
+    destruct (Nat.leb (length pre) pos && Nat.ltb pos (length pre + (33 + length payload))) eqn:C.
+    + apply andb_true_iff in C. destruct C as [C1 C2].
+      apply Nat.leb_le in C1. apply Nat.ltb_lt in C2.
+      pose proof (block_byte_guarded h128 h128_range pre h payload post pos b BMeta
+                    Hck Hdl Hul (conj C1 C2)) as G.
+      cbv zeta in G. rewrite <- Ef in G.
+      destruct G as [[e G]|[G|[G|G]]].
+      * left. exists e. now rewrite G.
+      * right; left. now rewrite G.
+      * right; right. left. destruct G as (p' & G1 & _ & G2). exists payload, p'. now split.
+      * right; right. right. destruct G as (hb' & G1 & G2 & G3).
+        exists (header_body h), hb'. split; [exact G1|]. split; [apply header_body_length|].
+        split; assumption.
+    + right; left. rewrite block_outside_unchanged; [reflexivity|].
+      apply andb_false_iff in C. destruct C as [C|C].
+      * apply Nat.leb_gt in C. left. exact C.
+      * apply Nat.ltb_ge in C. right. exact C.
+  - right; right. left. destruct H as (c' & H1 & H2). exists toc, c'. now split.
+Qed.
+
+(** ** Truncation of an sfa archive: the trailer is found relative to the END of the
+    file, so a cut file is opened only if the 38 bytes before the cut happen to start
+    with a trailer ("SFA!", version 1, checksum type 0) ... *)
+Theorem sfa_truncation_partial file len es :
+  sfa_open h128 (truncate file len) = BOk es ->
+  (38 <= len)%nat /\
+  firstn 6 (skipn (Nat.min len (length file) - 38) (truncate file len)) = [83; 70; 65; 33; 1; 0].
+Proof.
+  intros H. apply sfa_open_ok_inv in H. destruct H as (ck & p & tb & T & _ & _).
+  unfold sfa_read_trailer in T. rewrite truncate_length in T.
+  destruct (Nat.ltb (Nat.min len (length file)) 38) eqn:F; [discriminate|].
+  apply Nat.ltb_ge in F. split; [lia|].
+  set (t := skipn (Nat.min len (length file) - 38) (truncate file len)) in *.
+  destruct (take_bytes 4 t) as [[magic t1]|] eqn:E0; [|discriminate].
+  destruct (negb (key_eqb magic [83; 70; 65; 33])) eqn:EM; [discriminate|].
+  destruct (rd 1 t1) as [[ver t2]|e] eqn:E1; [|discriminate].
+  destruct (negb (ver =? 1)) eqn:EV; [discriminate|].
+  destruct (rd 1 t2) as [[ct t3]|e] eqn:E2; [|discriminate].
+  destruct (negb (ct =? 0)) eqn:EC; [discriminate|].
+  apply take_bytes_spec in E0. destruct E0 as [Et L0].
+  apply rd_spec in E1, E2. destruct E1 as (c1 & -> & L1 & V1). destruct E2 as (c2 & -> & L2 & V2).
+  apply negb_false_iff in EM, EV, EC. apply key_eqb_eq in EM. apply N.eqb_eq in EV, EC.
+  subst magic. rewrite V1 in EV. rewrite V2 in EC. rewrite Et.
+  destruct c1 as [|x1 [|? ?]]; try discriminate. destruct c2 as [|x2 [|? ?]]; try discriminate.
+  cbn [le_value] in EV, EC. cbn [app firstn]. repeat f_equal; lia.
+Qed.
+
+End OpenTable.
+
+(** ... which CAN happen (REFUTATION of "every truncation of an sfa archive is rejected
+    by sfa itself"): a section payload that contains a complete smaller archive. Cutting
+    the outer file right after it yields a valid archive with a different ToC. The
+    whole-file digest (checked for version files only) is what excludes this. *)
+Theorem sfa_truncation_refuted :
+  exists (h : list N -> N) secs len es es',
+    (forall l, h l < 2 ^ 128) /\
+    let file := sfa_encode secs (h (sfa_toc secs)) in
+    (len < length file)%nat /\
+    sfa_open h file = BOk es /\ sfa_open h (truncate file len) = BOk es' /\ es' <> es.
+Proof.
+  set (inner := sfa_encode [([97], [1])] (toyh (sfa_toc [([97], [1])]))).
+  exists toyh, [([120], inner ++ [0])], (length inner),
+    [([120], 0, 67)], [([97], 0, 1)].
+  split; [exact toyh_range|]. vm_compute. repeat split; try reflexivity; try lia. discriminate.
+Qed.
+
+(** ** A whole blob file: "data" (frames), "meta" ("META" + meta block), ToC, trailer *)
+
+Definition ex_blob_secs : list section :=
+  [ (n_data, ex_frame ++ encode_blob_frame toyh [98] 1 [1; 2] 2);
+    (n_meta, META_HEADER_MAGIC ++ encode_block toyh BMeta [1; 2; 3]) ].
+Definition ex_blob_file : list N := sfa_encode ex_blob_secs (toyh (sfa_toc ex_blob_secs)).
+
+Example open_blob_file_ex :
+  length ex_blob_file = 216%nat /\
+  (match open_blob_file toyh ex_blob_file with
+   | BOk blk => list_N_eqb (b_data blk) [1; 2; 3] | BErr _ => false end) = true /\
+  read_blob_frame toyh true ex_blob_file 45 2 [98] = BOk [1; 2] /\
+  (* frames 0..85: not looked at when the file is opened *)
+  forallb (fun pos => negb (is_err (open_blob_file toyh (bump ex_blob_file pos 1)))) (seq 0 86) = true /\
+  (* "META", meta block, ToC, trailer up to toc_pos: rejected *)
+  forallb (fun pos => is_err (open_blob_file toyh (bump ex_blob_file pos 1))) (seq 86 122) = true /\
+  (* the scan stops at the "META" magic, it does not use the ToC *)
+  (match scan_blob_frame toyh ex_blob_file with
+   | BOk (Some (e, r)) =>
+       match scan_blob_frame toyh r with
+       | BOk (Some (e2, r2)) =>
+           match scan_blob_frame toyh r2 with BOk None => true | _ => false end
+       | _ => false end
+   | _ => false end) = true.
+Proof. vm_compute. repeat split; reflexivity. Qed.
+
+(** * Assumptions *)
+Print Assumptions block_byte_guarded.
+Print Assumptions block_truncation_guarded.
+Print Assumptions block_outside_unchanged.
+Print Assumptions encode_block_loads.
+Print Assumptions block_reader_byte_guarded.
+Print Assumptions block_reader_truncation_guarded.
+Print Assumptions version_file_guarded.
+Print Assumptions version_file_byte_guarded.
+Print Assumptions version_file_truncation_guarded.
+Print Assumptions recover_version_guarded.
+Print Assumptions current_file_guarded.
+Print Assumptions current_truncation_guarded.
+Print Assumptions version_file_old_refuted.
+Print Assumptions sfa_guarded.
+Print Assumptions sfa_payload_unguarded.
+Print Assumptions sfa_toc_len_unread.
+Print Assumptions sfa_encode_opens.
+Print Assumptions sfa_truncation_partial.
+Print Assumptions sfa_truncation_refuted.
+Print Assumptions blob_frame_guarded.
+Print Assumptions blob_get_seqno_disk_len_unread.
+Print Assumptions blob_get_real_len_unread_release.
+Print Assumptions blob_scan_guarded.
+Print Assumptions blob_scan_seqno_refuted.
+Print Assumptions blob_scan_real_len_refuted.
+Print Assumptions table_file_covered.
+Print Assumptions table_block_region_guarded.
+Print Assumptions table_sfa_guarded.
+Print Assumptions raw_region_unguarded.
+Print Assumptions linked_blob_files_refuted.
+Print Assumptions open_table_guarded.
